@@ -29,6 +29,9 @@ def digit (n : Nat) : Char := Char.ofNat (48 + n % 10)
 def pad2 (n : Nat) : List Char := [digit (n / 10), digit n]
 def pad4 (n : Nat) : List Char := [digit (n / 1000), digit (n / 100), digit (n / 10), digit n]
 
+/-- the `strftime` format that `format` implements -/
+def formatSpec : String := "%Y-%m-%d_%H-%M-%S"
+
 /-- strftime "%Y-%m-%d_%H-%M-%S" -/
 def format (t : TS) : List Char :=
   pad4 t.y ++ ['-'] ++ pad2 t.mo ++ ['-'] ++ pad2 t.d ++ ['_'] ++ pad2 t.h ++ ['-'] ++ pad2 t.mi ++ ['-'] ++ pad2 t.s
